@@ -138,3 +138,46 @@ func LockDiscovery(p *load.Program, pkgs []string) {
 		}
 	}
 }
+
+// SwallowedErrors is a discovery aid, never a verdict: it lists call sites in pkgs whose error result, when
+// non-nil, still lets the function reach a success return or the next loop iteration (logged-and-continued,
+// shadowed, overwritten). The reader decides which of them matter.
+func SwallowedErrors(p *load.Program, pkgs []string) {
+	ctx := &core.Ctx{P: p}
+	r := &R{Ctx: ctx, P: p}
+	n := 0
+	for _, fn := range p.ModuleFuncs(pkgs...) {
+		pos := r.fpos(fn)
+		if strings.Contains(pos, "benchmark_") || strings.Contains(pos, "migration_") || strings.Contains(pos, ".pb.") {
+			continue
+		}
+		okExit := false
+		if res := fn.Signature.Results(); res.Len() > 0 && res.At(res.Len()-1).Type().String() == "error" {
+			okExit = true
+		}
+		if !okExit {
+			continue // only functions that can report an error themselves
+		}
+		for _, b := range fn.Blocks {
+			for _, in := range b.Instrs {
+				c, ok := in.(*ssa.Call)
+				if !ok {
+					continue
+				}
+				sig := c.Common().Signature()
+				k := sig.Results().Len()
+				if k == 0 || sig.Results().At(k-1).Type().String() != "error" {
+					continue
+				}
+				before := len(ctx.Obs)
+				r.errorNeverSwallowed("discover.swallowed", fn, c, "")
+				obs := ctx.Obs
+				if len(obs) > before && obs[len(obs)-1].Status == core.Violated {
+					n++
+					fmt.Printf("%s: %s swallows the error of %s\n", r.pos(c), ssax.FuncName(fn), ssax.CalleeName(c.Common()))
+				}
+			}
+		}
+	}
+	fmt.Println(n, "site(s)")
+}
